@@ -253,13 +253,21 @@ Example error_example :
   /\ final_status (oreads (run_reduce 128 Z.add [[Rows [(1, 10)]; Fail 7]; [Rows [(2, 0)]]] [1; 1; 1]%nat)) = SErr 7.
 Proof. vm_compute. auto. Qed.
 
-(* the code's own run-length arithmetic panics when a run of 256 rows encodes to 60
-   bytes (a compressing codec): SortReader does not survive, although the input is fine *)
-Theorem sort_bytes_per_row_zero_refuted :
+(* A run of 4 rows that encodes to 3 bytes (a compressing codec).  With the arithmetic
+   as it was before the clamp SortReader panicked although the input is fine; with the
+   code's arithmetic the same input is sorted. *)
+Theorem unclamped_arithmetic_div_zero :
   exists canary batch target size s demands,
     (1 <= canary)%nat /\ (1 <= batch)%nat /\ sfin s = SEof /\
-    ocreate (run_sort canary batch (fun _ n => real_next target (Z.of_nat batch) size n) s demands) = CPanic.
+    ocreate (run_sort canary batch (fun _ n => real_next_unclamped target (Z.of_nat batch) size n) s demands) = CPanic /\
+    ocreate (run_sort canary batch (fun _ n => real_next target (Z.of_nat batch) size n) s demands) = COk.
 Proof.
   exists 4%nat, 2%nat, 100, 3, [Rows [(0, 0); (0, 0); (0, 0); (0, 0)]; Rows [(0, 0)]], [1%nat].
   vm_compute. repeat split; auto; lia.
 Qed.
+
+Example compressing_codec_example :
+  run_sort 4 2 (fun _ n => real_next 100 2 3 n)
+    [Rows [(2, 0); (0, 0); (1, 0); (0, 0)]; Rows [(0, 1)]] [3; 3; 3]%nat
+  = mkO COk [([(0, 0); (0, 0); (0, 1)], SOk); ([(1, 0); (2, 0)], SOk); ([], SEof)] [4; 100]%nat 0.
+Proof. vm_compute. reflexivity. Qed.
